@@ -382,6 +382,15 @@ static void run_equal(Choices &c, Ctx &ctx)
 		ctx.nontrivial(hash_val(a, hash_val(b)));
 }
 
+// a serialiser function that needs no user data
+static int ser_plain(json_object *, printbuf *pb, int, int) { return printbuf_memappend(pb, "\"plain-custom\"", 14); }
+// a shallow-copy callback that only delegates (json_object.h: custom callbacks may call the default)
+static int g_delegated;
+static int copy_delegate(json_object *src, json_object *parent, const char *key, size_t index, json_object **dst)
+{
+	g_delegated++;
+	return json_c_shallow_copy_default(src, parent, key, index, dst);
+}
 static void run_copy(Choices &c, Ctx &ctx)
 {
 	json_object *src = nullptr;
@@ -427,7 +436,10 @@ static void run_copy(Choices &c, Ctx &ctx)
 			case 1: x = json_object_new_int(7); break;
 			default: x = json_object_new_array(); break;
 			}
-			json_object_set_serializer(x, json_object_userdata_to_json_string, strdup(txt.c_str()), json_object_free_userdata);
+			if (c.coin(30))
+				json_object_set_serializer(x, ser_plain, nullptr, nullptr); // function only: no user data, no deleter
+			else
+				json_object_set_serializer(x, json_object_userdata_to_json_string, strdup(txt.c_str()), json_object_free_userdata);
 			json_object_object_add(src, ("m" + str(i)).c_str(), x);
 		}
 		json_object_object_add(src, "ds", json_object_new_double_s(2.5, "2.500"));
@@ -441,7 +453,11 @@ static void run_copy(Choices &c, Ctx &ctx)
 		return; // JSON null: nothing to copy (deep_copy refuses a NULL source)
 	Val before = dump(src);
 	json_object *cp = nullptr;
-	int rc = json_object_deep_copy(src, &cp, nullptr);
+	bool delegate = c.coin(30);
+	g_delegated = 0;
+	int rc = json_object_deep_copy(src, &cp, delegate ? copy_delegate : nullptr);
+	if (delegate && rc == 0 && g_delegated == 0)
+		ctx.fail("copy-callback", "the shallow-copy callback was never called");
 	if (rc != 0 || !cp)
 		ctx.fail("copy-failed", "json_object_deep_copy returned " + str(rc) + " for " + origin);
 	// must refuse a non-NULL destination
